@@ -66,8 +66,9 @@ ASSUMPTIONS = [
     'a restart after release-hold-point re-applies the configured point '
     '(documented priority: DB/CLI value, else configuration); the model '
     'follows that and re-holds every pooled instance beyond it.',
-    'kill, remove, set and reload are not in the command alphabet (kill and '
-    'remove hold the tasks they act on, which the statement does not cover).',
+    'kill, remove and set are not in the command alphabet (kill and '
+    'remove hold the tasks they act on, which the statement does not cover); '
+    'reload (definition unchanged) is: it must not disturb holds.',
     'Command IDs name single instances (no globs / families).',
     'The restart poll returns in the main-loop iteration after the one '
     'that launched it (a poll result that arrives after newer job messages is the '
@@ -87,7 +88,8 @@ ASSUMPTIONS = [
 ]
 
 CMD_OPS = ['hold', 'hold', 'hold', 'release', 'release', 'hold-point',
-           'release-hold-point', 'trigger', 'pause', 'resume', 'restart']
+           'release-hold-point', 'trigger', 'pause', 'resume', 'restart',
+           'reload']
 BASE_OPS = ['loop', 'loop', 'loop', 'ret', 'adv', 'del', 'del', 'fair',
             'fair']
 
